@@ -1,6 +1,1723 @@
-//! C04 monitor (not built yet)
-use vcore::{Args, Report};
+//! C04 — hostile but well-formed frames cost bounded work and get the RFC's error (L1 part).
+//!
+//! A *probe* is: a short legitimate pre-history (`Hist`), the bytes of one hostile packet payload
+//! (frames, hex) plus its packet number, and the set of outcomes the RFC allows.  Every probe
+//! runs in a **grandchild process** (`l1rec c04 --probe <json>`, re-exec of this binary) under
+//! RLIMIT_AS = 2 GiB / RLIMIT_CPU = 20 s.  The grandchild builds a miniature connection out of
+//! the real components (journals, congestion controller, cid tables, DataStreams, flow
+//! controller, crypto streams), drives the history and the probe through a dispatcher that
+//! mirrors qconnection/src/space/{initial,data}.rs + space.rs (same order of handler calls) and
+//! reports outcome, process CPU time and counted allocation of the probe step alone.
+//!
+//! Oracles (parent side):
+//!  * cost:  peak-live allocation <= 64 KiB + 1 KiB*(b+n), cpu <= 50 ms + 20 us*(b+n);
+//!           death by rlimit / allocation failure is the violation itself;
+//!  * error: observed outcome must be in the probe's allowed set (table frame-shape -> ErrorKind).
+use std::{
+    collections::{HashSet, VecDeque},
+    io::{Read, Write},
+    process::{Command, Stdio},
+    sync::{Arc, Mutex, atomic::AtomicU16},
+    time::Duration,
+};
 
-pub fn run(_args: &Args, rep: &mut Report) {
-    rep.inconclusive("monitor not built yet");
+use bytes::Bytes;
+use qbase::{
+    Epoch,
+    cid::{ArcCidCell, ArcLocalCids, ArcRemoteCids, ConnectionId, GenUniqueCid, RetireCid},
+    error::{Error as QError, QuicError},
+    flow::FlowController,
+    frame::{
+        AckFrame, CryptoFrame, Frame, FrameReader, NewConnectionIdFrame, ReliableFrame,
+        StreamCtlFrame, StreamFrame,
+        io::{ReceiveFrame, SendFrame},
+    },
+    net::tx::{ArcSendWaker, ArcSendWakers, Signals},
+    packet::{
+        PacketContent, PacketNumber,
+        r#type::{
+            Type,
+            long::{Type as LongType, Ver1},
+            short::OneRtt,
+        },
+    },
+    param::{ClientParameters, ParameterId, handy},
+    role::Role,
+    sid::{Dir, StreamId, handy::ConsistentConcurrency},
+};
+use qcongestion::{Algorithm, ArcCC, Feedback, HandshakeStatus, PathStatus, Transport};
+use qevent::quic::recovery::PacketLostTrigger;
+use qrecovery::{
+    crypto::CryptoStream,
+    journal::{ArcRcvdJournal, ArcSentJournal, Journal},
+    streams::DataStreams,
+};
+use serde_json::{Value, json};
+use vcore::{Args, Report, Rng};
+
+// ------------------------------------------------------------------------------------------
+// constants of the miniature connection (victim = server, hostile peer = client)
+// ------------------------------------------------------------------------------------------
+const RLIMIT_AS: u64 = 2 << 30;
+const RLIMIT_CPU_S: u64 = 20;
+const WATCHDOG_S: u64 = 90;
+/// our advertised limits
+const MAX_STREAMS: u64 = 100;
+const STREAM_WINDOW: u64 = 1 << 16;
+const CONN_WINDOW: u64 = 1 << 20;
+const LOCAL_CID_LIMIT: u64 = 4; // our active_connection_id_limit (bounds what the peer may issue)
+const PEER_CID_LIMIT: u64 = 4; // the peer's active_connection_id_limit (bounds what we issue)
+/// advertised limits the endpoint committed itself to hold state for; counted into n
+const N_LIMITS: u64 = 2 * MAX_STREAMS + LOCAL_CID_LIMIT + PEER_CID_LIMIT;
+const VMAX: u64 = (1 << 62) - 1;
+const SID_MAX: u64 = (1 << 60) - 1;
+
+fn alloc_budget(b: u64, n: u64) -> u64 {
+    64 * 1024 + 1024 * (b + n)
+}
+fn cpu_budget_us(b: u64, n: u64) -> u64 {
+    50_000 + 20 * (b + n)
+}
+
+// ------------------------------------------------------------------------------------------
+// wire encoders (hand written: the probe table must not depend on the encoder under test)
+// ------------------------------------------------------------------------------------------
+mod wire {
+    pub fn vi(v: u64, out: &mut Vec<u8>) {
+        if v < 1 << 6 {
+            out.push(v as u8);
+        } else if v < 1 << 14 {
+            out.extend_from_slice(&((v as u16) | 0x4000).to_be_bytes());
+        } else if v < 1 << 30 {
+            out.extend_from_slice(&((v as u32) | 0x8000_0000).to_be_bytes());
+        } else {
+            assert!(v < 1 << 62);
+            out.extend_from_slice(&(v | 0xc000_0000_0000_0000).to_be_bytes());
+        }
+    }
+    pub fn frame(ty: u64, fields: &[u64]) -> Vec<u8> {
+        let mut o = vec![];
+        vi(ty, &mut o);
+        for f in fields {
+            vi(*f, &mut o);
+        }
+        o
+    }
+    pub fn ack(largest: u64, delay: u64, first: u64, ranges: &[(u64, u64)]) -> Vec<u8> {
+        let mut o = frame(0x02, &[largest, delay, ranges.len() as u64, first]);
+        for (g, l) in ranges {
+            vi(*g, &mut o);
+            vi(*l, &mut o);
+        }
+        o
+    }
+    pub fn ack_ecn(largest: u64, delay: u64, first: u64, ecn: [u64; 3]) -> Vec<u8> {
+        frame(0x03, &[largest, delay, 0, first, ecn[0], ecn[1], ecn[2]])
+    }
+    /// connection id of sequence `seq` as the honest/hostile peer issues it (stable per seq)
+    pub fn cid_of(seq: u64) -> [u8; 8] {
+        (seq ^ 0xc1d0_0000_0000_0000).to_be_bytes()
+    }
+    pub fn new_cid(seq: u64, rpt: u64) -> Vec<u8> {
+        let mut o = frame(0x18, &[seq, rpt]);
+        o.push(8);
+        o.extend_from_slice(&cid_of(seq));
+        let t = seq.wrapping_mul(0x9e37_79b9_7f4a_7c15);
+        o.extend_from_slice(&t.to_be_bytes());
+        o.extend_from_slice(&(!t).to_be_bytes());
+        o
+    }
+    pub fn retire_cid(seq: u64) -> Vec<u8> {
+        frame(0x19, &[seq])
+    }
+    /// stream id: role 0 = client, 1 = server; dir 0 = bidi, 1 = uni
+    pub fn sid(role: u64, dir: u64, idx: u64) -> u64 {
+        (idx << 2) | (dir << 1) | role
+    }
+    pub fn stream(sid: u64, off: u64, len: usize, fin: bool) -> Vec<u8> {
+        let mut ty = 0x08 | 0x02;
+        if off != 0 {
+            ty |= 0x04;
+        }
+        if fin {
+            ty |= 0x01;
+        }
+        let mut o = vec![ty];
+        vi(sid, &mut o);
+        if off != 0 {
+            vi(off, &mut o);
+        }
+        vi(len as u64, &mut o);
+        o.extend((0..len).map(|i| (off as usize + i) as u8));
+        o
+    }
+    pub fn crypto(off: u64, len: usize) -> Vec<u8> {
+        let mut o = frame(0x06, &[off, len as u64]);
+        o.extend((0..len).map(|i| (off as usize + i) as u8));
+        o
+    }
+    pub fn reset_stream(sid: u64, code: u64, fin: u64) -> Vec<u8> {
+        frame(0x04, &[sid, code, fin])
+    }
+    pub fn stop_sending(sid: u64, code: u64) -> Vec<u8> {
+        frame(0x05, &[sid, code])
+    }
+    pub fn max_data(v: u64) -> Vec<u8> {
+        frame(0x10, &[v])
+    }
+    pub fn max_stream_data(sid: u64, v: u64) -> Vec<u8> {
+        frame(0x11, &[sid, v])
+    }
+    pub fn max_streams(uni: bool, v: u64) -> Vec<u8> {
+        frame(0x12 + uni as u64, &[v])
+    }
+    pub fn data_blocked(v: u64) -> Vec<u8> {
+        frame(0x14, &[v])
+    }
+    pub fn stream_data_blocked(sid: u64, v: u64) -> Vec<u8> {
+        frame(0x15, &[sid, v])
+    }
+    pub fn streams_blocked(uni: bool, v: u64) -> Vec<u8> {
+        frame(0x16 + uni as u64, &[v])
+    }
+    pub const PING: u8 = 0x01;
+}
+
+// ------------------------------------------------------------------------------------------
+// probe description (JSON round-trippable: it is the replay object)
+// ------------------------------------------------------------------------------------------
+#[derive(Clone, Copy, Debug, PartialEq, Eq)]
+pub struct Hist {
+    /// packets received from and sent to the peer in the probed space
+    pub k: u64,
+    /// connection ids issued by the peer beyond sequence 0 (<= LOCAL_CID_LIMIT-1)
+    pub cids: u64,
+    /// client-initiated bidirectional streams the peer opened (each holds 50 bytes; stream 1 also
+    /// has a FIN at 100 with a gap, i.e. is in Size Known state)
+    pub streams: u64,
+}
+
+impl Hist {
+    fn n_state(&self) -> u64 {
+        // sent + received packet records, peer cids (incl. seq 0), our cids, open streams
+        2 * self.k + (self.cids + 1) + PEER_CID_LIMIT + self.streams
+    }
+    fn n(&self) -> u64 {
+        self.n_state() + N_LIMITS
+    }
+    fn to_json(self) -> Value {
+        json!({"k": self.k, "cids": self.cids, "streams": self.streams})
+    }
+    fn from_json(v: &Value) -> Hist {
+        Hist { k: v["k"].as_u64().unwrap_or(0), cids: v["cids"].as_u64().unwrap_or(0), streams: v["streams"].as_u64().unwrap_or(0) }
+    }
+}
+
+#[derive(Clone, Debug)]
+pub struct Probe {
+    /// handler + field, names the cost signatures `C04.mem:<family>` / `C04.cpu:<family>`
+    pub family: String,
+    /// trigger class, names the error signature `C04.error:<clause>`
+    pub clause: String,
+    /// "data" | "initial"
+    pub epoch: String,
+    /// "packet" (frames in a packet with number `pn`) | "set_limit" (peer transport parameter)
+    pub kind: String,
+    pub hist: Hist,
+    pub pn: u64,
+    pub frames: Vec<u8>,
+    /// swept value (for evidence and ramp fitting)
+    pub value: u64,
+    /// allowed outcomes: "accepted", "dropped", "error:<ErrorKind>", or "any"
+    pub allowed: Vec<String>,
+}
+
+impl Probe {
+    fn to_json(&self) -> Value {
+        json!({"kind": "c04", "probe_kind": self.kind, "family": self.family, "clause": self.clause, "epoch": self.epoch,
+               "hist": self.hist.to_json(), "pn": self.pn, "frames": vcore::hex(&self.frames), "value": self.value,
+               "allowed": self.allowed})
+    }
+    fn from_json(v: &Value) -> Probe {
+        Probe {
+            family: v["family"].as_str().unwrap_or("?").into(),
+            clause: v["clause"].as_str().unwrap_or("?").into(),
+            epoch: v["epoch"].as_str().unwrap_or("data").into(),
+            kind: v["probe_kind"].as_str().unwrap_or("packet").into(),
+            hist: Hist::from_json(&v["hist"]),
+            pn: v["pn"].as_u64().unwrap_or(0),
+            frames: vcore::unhex(v["frames"].as_str().unwrap_or("")),
+            value: v["value"].as_u64().unwrap_or(0),
+            allowed: v["allowed"].as_array().map(|a| a.iter().filter_map(|x| x.as_str().map(String::from)).collect()).unwrap_or_default(),
+        }
+    }
+    /// wire size of the hostile input (packet number + frames; header/tag not counted: conservative)
+    fn b(&self) -> u64 {
+        if self.kind == "set_limit" { 10 } else { 4 + self.frames.len() as u64 }
+    }
+}
+
+// ==========================================================================================
+//                                   GRANDCHILD SIDE
+// ==========================================================================================
+
+/// frame sink of the connection, same shape as qrecovery::reliable::ArcReliableFrameDeque
+/// (VecDeque::extend + wake) but readable by the monitor
+#[derive(Clone, Default)]
+struct Sink {
+    frames: Arc<Mutex<VecDeque<ReliableFrame>>>,
+    wakers: ArcSendWakers,
+}
+
+impl<T: Into<ReliableFrame>> SendFrame<T> for Sink {
+    fn send_frame<I: IntoIterator<Item = T>>(&self, iter: I) {
+        self.frames.lock().unwrap().extend(iter.into_iter().map(Into::into));
+        self.wakers.wake_all_by(Signals::TRANSPORT);
+    }
+}
+
+impl Sink {
+    fn len(&self) -> usize {
+        self.frames.lock().unwrap().len()
+    }
+    fn count_retire(&self) -> usize {
+        self.frames.lock().unwrap().iter().filter(|f| matches!(f, ReliableFrame::RetireConnectionId(_))).count()
+    }
+}
+
+/// stands in for qinterface's QuicRouterRegistry (O(1) map insert/remove per cid)
+#[derive(Clone, Default)]
+struct Issued {
+    active: Arc<Mutex<HashSet<ConnectionId>>>,
+    next: Arc<Mutex<u64>>,
+    sink: Sink,
+}
+
+impl GenUniqueCid for Issued {
+    fn gen_unique_cid(&self) -> ConnectionId {
+        let mut n = self.next.lock().unwrap();
+        *n += 1;
+        let cid = ConnectionId::from_slice(&(*n | 0x8000_0000_0000_0000).to_be_bytes());
+        self.active.lock().unwrap().insert(cid);
+        cid
+    }
+}
+
+impl RetireCid for Issued {
+    fn retire_cid(&self, cid: ConnectionId) {
+        self.active.lock().unwrap().remove(&cid);
+    }
+}
+
+impl SendFrame<NewConnectionIdFrame> for Issued {
+    fn send_frame<I: IntoIterator<Item = NewConnectionIdFrame>>(&self, iter: I) {
+        self.sink.send_frame(iter);
+    }
+}
+
+/// minimal packet buffer for `CryptoStreamOutgoing::try_load_data_into`: bounded, remembers the crypto frames
+struct Pkt {
+    buf: bytes::buf::Limit<Vec<u8>>,
+    crypto: Vec<CryptoFrame>,
+}
+
+impl Pkt {
+    fn new(cap: usize) -> Pkt {
+        use bytes::BufMut;
+        Pkt { buf: Vec::with_capacity(cap).limit(cap), crypto: vec![] }
+    }
+}
+
+unsafe impl bytes::BufMut for Pkt {
+    fn remaining_mut(&self) -> usize {
+        self.buf.remaining_mut()
+    }
+    unsafe fn advance_mut(&mut self, cnt: usize) {
+        unsafe { self.buf.advance_mut(cnt) }
+    }
+    fn chunk_mut(&mut self) -> &mut bytes::buf::UninitSlice {
+        self.buf.chunk_mut()
+    }
+}
+
+impl<D: qbase::util::ContinuousData> qbase::packet::io::RecordFrame<Frame<D>, D> for Pkt {
+    fn record_frame(&mut self, frame: &Frame<D>) {
+        if let Frame::Crypto(f, _) = frame {
+            self.crypto.push(*f);
+        }
+    }
+}
+
+/// qconnection's GuaranteedFrame
+#[derive(Clone, Debug)]
+enum GF {
+    Stream(StreamFrame),
+    #[allow(dead_code)]
+    Crypto(CryptoFrame),
+    Reliable(ReliableFrame),
+}
+
+struct DataTracker {
+    sent: ArcSentJournal<GF>,
+    crypto: CryptoStream,
+    streams: DataStreams<Sink>,
+    sink: Sink,
+}
+
+impl Feedback for DataTracker {
+    fn may_loss(&self, _t: PacketLostTrigger, pns: &mut dyn Iterator<Item = u64>) {
+        let out = self.crypto.outgoing();
+        let mut g = self.sent.rotate();
+        for pn in pns {
+            for f in g.may_loss_packet(pn) {
+                match f {
+                    GF::Crypto(f) => out.may_loss_data(&f),
+                    GF::Stream(f) => self.streams.may_loss_data(&f),
+                    GF::Reliable(f) => self.sink.send_frame([f]),
+                }
+            }
+        }
+    }
+}
+
+struct CryptoTracker {
+    sent: ArcSentJournal<CryptoFrame>,
+    crypto: CryptoStream,
+}
+
+impl Feedback for CryptoTracker {
+    fn may_loss(&self, _t: PacketLostTrigger, pns: &mut dyn Iterator<Item = u64>) {
+        let out = self.crypto.outgoing();
+        let mut g = self.sent.rotate();
+        for pn in pns {
+            for f in g.may_loss_packet(pn) {
+                out.may_loss_data(&f);
+            }
+        }
+    }
+}
+
+struct Conn {
+    sink: Sink,
+    cc: ArcCC,
+    init: Journal<CryptoFrame>,
+    init_crypto: CryptoStream,
+    data: Journal<GF>,
+    data_crypto: CryptoStream,
+    remote_cids: ArcRemoteCids<Sink>,
+    local_cids: ArcLocalCids<Issued>,
+    streams: DataStreams<Sink>,
+    flow: FlowController<Sink>,
+    _cell: ArcCidCell<Sink>,
+    /// pipes that already failed stop handling (qconnection::space::pipe breaks its loop)
+    broken: HashSet<&'static str>,
+}
+
+#[derive(Debug, Clone)]
+enum Outcome {
+    Accepted,
+    Dropped(String),
+    Error(String, String),
+}
+
+impl Outcome {
+    fn token(&self) -> String {
+        match self {
+            Outcome::Accepted => "accepted".into(),
+            Outcome::Dropped(_) => "dropped".into(),
+            Outcome::Error(k, _) => format!("error:{k}"),
+        }
+    }
+    fn detail(&self) -> String {
+        match self {
+            Outcome::Accepted => String::new(),
+            Outcome::Dropped(r) => r.clone(),
+            Outcome::Error(_, r) => r.clone(),
+        }
+    }
+}
+
+fn kind_of(e: &QError) -> (String, String) {
+    (format!("{:?}", e.kind()), e.to_string())
+}
+
+impl Conn {
+    fn new() -> Conn {
+        let wakers = ArcSendWakers::default();
+        let sink = Sink { frames: Default::default(), wakers: wakers.clone() };
+        let mut local = handy::server_parameters();
+        for (id, v) in [
+            (ParameterId::InitialMaxStreamsBidi, MAX_STREAMS),
+            (ParameterId::InitialMaxStreamsUni, MAX_STREAMS),
+            (ParameterId::InitialMaxData, CONN_WINDOW),
+            (ParameterId::InitialMaxStreamDataBidiLocal, STREAM_WINDOW),
+            (ParameterId::InitialMaxStreamDataBidiRemote, STREAM_WINDOW),
+            (ParameterId::InitialMaxStreamDataUni, STREAM_WINDOW),
+            (ParameterId::ActiveConnectionIdLimit, LOCAL_CID_LIMIT),
+        ] {
+            local.set(id, v as u32).expect("local parameter");
+        }
+        let mut remote = handy::client_parameters();
+        remote.set(ParameterId::ActiveConnectionIdLimit, PEER_CID_LIMIT as u32).expect("remote parameter");
+
+        // qconnection::builder::init_stream_and_datagram, then tls_fin_handler::apply_parameters
+        let streams = DataStreams::new(
+            Role::Server,
+            &local,
+            &ClientParameters::default(),
+            Box::new(ConsistentConcurrency::new(MAX_STREAMS, MAX_STREAMS)),
+            sink.clone(),
+            wakers.clone(),
+            None,
+        );
+        let flow = FlowController::new(0, CONN_WINDOW, sink.clone(), wakers.clone());
+        streams.revise_params(false, &remote);
+        flow.sender.revise_max_data(false, remote.get(ParameterId::InitialMaxData).unwrap());
+
+        let issued = Issued { sink: sink.clone(), ..Default::default() };
+        let local_cids = ArcLocalCids::new(ConnectionId::from_slice(&[0x5e; 8]), issued);
+        let remote_cids = ArcRemoteCids::new(LOCAL_CID_LIMIT, sink.clone());
+        // one path: applies for a dcid; the first Initial's SCID becomes sequence 0
+        let cell = remote_cids.apply_dcid();
+        remote_cids.apply_initial_dcid(ConnectionId::from_slice(&wire::cid_of(0)), &cell);
+
+        let init: Journal<CryptoFrame> = Journal::with_capacity(16, None);
+        let hs: Journal<CryptoFrame> = Journal::with_capacity(16, None);
+        let data: Journal<GF> = Journal::with_capacity(16, None);
+        let init_crypto = CryptoStream::new(wakers.clone());
+        let hs_crypto = CryptoStream::new(wakers.clone());
+        let data_crypto = CryptoStream::new(wakers.clone());
+        let trackers: [Arc<dyn Feedback>; 3] = [
+            Arc::new(CryptoTracker { sent: init.of_sent_packets(), crypto: init_crypto.clone() }),
+            Arc::new(CryptoTracker { sent: hs.of_sent_packets(), crypto: hs_crypto.clone() }),
+            Arc::new(DataTracker { sent: data.of_sent_packets(), crypto: data_crypto.clone(), streams: streams.clone(), sink: sink.clone() }),
+        ];
+        let hstatus = Arc::new(HandshakeStatus::new(true));
+        let status = PathStatus::new(hstatus, Arc::new(AtomicU16::new(1200)));
+        status.release_anti_amplification_limit();
+        let cc = ArcCC::new(Algorithm::NewReno, Duration::from_millis(25), trackers, status, ArcSendWaker::new());
+        Conn { sink, cc, init, init_crypto, data, data_crypto, remote_cids, local_cids, streams, flow, _cell: cell, broken: HashSet::new() }
+    }
+
+    fn rcvd(&self, epoch: Epoch) -> ArcRcvdJournal {
+        match epoch {
+            Epoch::Initial => self.init.of_rcvd_packets(),
+            _ => self.data.of_rcvd_packets(),
+        }
+    }
+
+    /// space.rs Ack{Initial,Data}Space::recv_frame
+    fn ack_space(&self, epoch: Epoch, ack: AckFrame) -> Result<(), QError> {
+        match epoch {
+            Epoch::Initial => {
+                let sent = self.init.of_sent_packets();
+                let out = self.init_crypto.outgoing();
+                let mut g = sent.rotate();
+                g.update_largest(&ack)?;
+                let acked = ack.iter().flat_map(|r| r.rev()).collect::<Vec<_>>();
+                for pn in acked {
+                    for f in g.on_packet_acked(pn) {
+                        out.on_data_acked(&f);
+                    }
+                }
+                Ok(())
+            }
+            _ => {
+                let sent = self.data.of_sent_packets();
+                let out = self.data_crypto.outgoing();
+                let mut g = sent.rotate();
+                g.update_largest(&ack)?;
+                let acked = ack.iter().flat_map(|r| r.rev()).collect::<Vec<_>>();
+                for pn in acked {
+                    for f in g.on_packet_acked(pn) {
+                        match f {
+                            GF::Stream(f) => self.streams.on_data_acked(f),
+                            GF::Crypto(f) => out.on_data_acked(&f),
+                            GF::Reliable(ReliableFrame::StreamCtl(StreamCtlFrame::ResetStream(r))) => self.streams.on_reset_acked(r),
+                            _ => {}
+                        }
+                    }
+                }
+                Ok(())
+            }
+        }
+    }
+
+    /// frame_dispathcer of space/{initial,data}.rs: synchronous part, then the piped handler
+    fn dispatch(&mut self, epoch: Epoch, frame: Frame) -> Result<(), QError> {
+        macro_rules! pipe {
+            ($name:expr, $call:expr) => {{
+                if self.broken.contains($name) {
+                    Ok(())
+                } else {
+                    let r: Result<(), QError> = $call;
+                    if r.is_err() {
+                        self.broken.insert($name);
+                    }
+                    r
+                }
+            }};
+        }
+        match frame {
+            Frame::Ack(f) => {
+                self.cc.on_ack_rcvd(epoch, &f);
+                self.rcvd(epoch).on_rcvd_ack(&f);
+                pipe!("ack", self.ack_space(epoch, f))
+            }
+            Frame::Crypto(f, data) => {
+                let inc = if epoch == Epoch::Initial { self.init_crypto.incoming() } else { self.data_crypto.incoming() };
+                pipe!("crypto", inc.recv_frame((f, data)))
+            }
+            Frame::Padding(_) | Frame::Ping(_) => Ok(()),
+            _ if epoch == Epoch::Initial => Ok(()), // FrameReader already rejected these for Initial packets
+            Frame::MaxData(f) => pipe!("max_data", self.flow.sender.recv_frame(f)),
+            Frame::DataBlocked(f) => pipe!("data_blocked", self.flow.recver.recv_frame(f)),
+            Frame::NewConnectionId(f) => pipe!("new_cid", self.remote_cids.recv_frame(f).map(|_| ())),
+            Frame::RetireConnectionId(f) => pipe!("retire_cid", self.local_cids.recv_frame(f)),
+            // space.rs FlowControlledDataStreams
+            Frame::StreamCtl(f) => pipe!("stream_ctl", {
+                let fty = qbase::frame::GetFrameType::frame_type(&f);
+                match self.streams.recv_stream_control(f) {
+                    Ok(n) => self.flow.on_new_rcvd(fty, n).map(|_| ()),
+                    Err(e) => Err(QError::Quic(e)),
+                }
+            }),
+            Frame::Stream(f, data) => pipe!("stream", {
+                let fty = qbase::frame::GetFrameType::frame_type(&f);
+                match self.streams.recv_data((f, data)) {
+                    Ok(n) => self.flow.on_new_rcvd(fty, n).map(|_| ()),
+                    Err(e) => Err(QError::Quic(e)),
+                }
+            }),
+            _ => Ok(()),
+        }
+    }
+
+    /// parse_normal_{packet,one_rtt_packet}: decode pn, read frames, dispatch, record the packet
+    fn recv_packet(&mut self, epoch: Epoch, enc: PacketNumber, body: Bytes, want_pn: Option<u64>) -> Outcome {
+        let rcvd = self.rcvd(epoch);
+        let pn = match rcvd.decode_pn(enc) {
+            Ok(pn) => pn,
+            Err(e) => return Outcome::Dropped(e.to_string()),
+        };
+        if let Some(w) = want_pn
+            && w != pn
+        {
+            return Outcome::Dropped(format!("HARNESS pn decoded to {pn}, wanted {w}"));
+        }
+        let ty = match epoch {
+            Epoch::Initial => Type::Long(LongType::V1(Ver1::INITIAL)),
+            _ => Type::Short(OneRtt(0.into())),
+        };
+        let mut content = PacketContent::default();
+        let mut first_err: Option<(String, String)> = None;
+        for item in FrameReader::new(body, ty) {
+            match item {
+                Err(e) => {
+                    // read_plain_packet returns Err: Event::Failed, the packet is not recorded
+                    let q = QuicError::from(e);
+                    let e = first_err.unwrap_or((format!("{:?}", q.kind()), q.to_string()));
+                    return Outcome::Error(e.0, e.1);
+                }
+                Ok((frame, fty)) => {
+                    content += fty;
+                    if let Err(e) = self.dispatch(epoch, frame)
+                        && first_err.is_none()
+                    {
+                        first_err = Some(kind_of(&e));
+                    }
+                }
+            }
+        }
+        rcvd.on_rcvd_pn(pn, content.is_ack_eliciting(), self.cc.get_pto(epoch));
+        self.cc.on_pkt_rcvd(epoch, pn, content.is_ack_eliciting());
+        match first_err {
+            Some((k, r)) => Outcome::Error(k, r),
+            None => Outcome::Accepted,
+        }
+    }
+
+    /// send one packet in `epoch` (frames recorded in the sent journal, ACK generated if due)
+    fn send_packet(&mut self, epoch: Epoch, i: u64) {
+        let (retran, expire) = self.cc.retransmit_and_expire_time(epoch);
+        let pn;
+        match epoch {
+            Epoch::Initial => {
+                // real handshake bytes picked up from the crypto stream's send buffer
+                let mut pkt = Pkt::new(40);
+                let _ = self.init_crypto.outgoing().try_load_data_into(&mut pkt, false);
+                let sent = self.init.of_sent_packets();
+                let mut g = sent.new_packet();
+                pn = g.pn().0;
+                if pkt.crypto.is_empty() {
+                    g.record_trivial();
+                }
+                for f in pkt.crypto {
+                    g.record_frame(f);
+                }
+                g.build_with_time(retran, expire);
+            }
+            _ => {
+                let sent = self.data.of_sent_packets();
+                let mut g = sent.new_packet();
+                pn = g.pn().0;
+                if i % 7 == 3 {
+                    g.record_frame(GF::Reliable(ReliableFrame::MaxData(qbase::frame::MaxDataFrame::new(qbase::varint::VarInt::from_u64(CONN_WINDOW).unwrap()))));
+                } else {
+                    // data of a server-initiated stream the application wrote earlier
+                    g.record_frame(GF::Stream(StreamFrame::new(StreamId::new(Role::Server, Dir::Uni, 0), i * 100, 100)));
+                }
+                g.build_with_time(retran, expire);
+            }
+        }
+        let need = self.cc.need_ack(epoch).or_else(|| self.rcvd(epoch).need_ack());
+        let mut acked = None;
+        if let Some((largest, t)) = need
+            && self.rcvd(epoch).gen_ack_frame_util(pn, largest, t, 1100).is_ok()
+        {
+            acked = Some(largest);
+        }
+        self.cc.on_pkt_sent(epoch, pn, true, 1200, true, acked);
+    }
+
+    /// the legitimate pre-history; any refusal is a harness error
+    fn history(&mut self, h: Hist, epoch: Epoch, with_set_limit: bool) -> Result<(), String> {
+        if with_set_limit {
+            self.local_cids.set_limit(PEER_CID_LIMIT).map_err(|e| format!("set_limit: {e}"))?;
+        }
+        if epoch == Epoch::Data && h.k < h.cids.max(h.streams) {
+            return Err(format!("history needs k >= cids, streams ({h:?})"));
+        }
+        if epoch == Epoch::Initial {
+            // the TLS stack wrote its flight into the crypto stream
+            use tokio::io::AsyncWrite;
+            let data = vec![0x16u8; 40 * h.k as usize + 40];
+            let mut w = self.init_crypto.writer();
+            let mut cx = std::task::Context::from_waker(futures::task::noop_waker_ref());
+            match std::pin::Pin::new(&mut w).poll_write(&mut cx, &data) {
+                std::task::Poll::Ready(Ok(n)) if n == data.len() => {}
+                other => return Err(format!("crypto write: {other:?}")),
+            }
+        }
+        for i in 0..h.k {
+            let mut body = vec![];
+            if i >= 1 && i <= h.k / 4 {
+                body.extend(wire::ack(i - 1, 100, i - 1, &[]));
+            }
+            if epoch == Epoch::Data {
+                if i < h.cids {
+                    body.extend(wire::new_cid(i + 1, 0));
+                }
+                if i < h.streams {
+                    let sid = wire::sid(0, 0, i);
+                    body.extend(wire::stream(sid, 0, 50, false));
+                    if i == 1 {
+                        body.extend(wire::stream(sid, 80, 20, true));
+                    }
+                } else {
+                    body.push(wire::PING);
+                }
+            } else {
+                body.extend(wire::crypto(i * 10, 10));
+            }
+            let enc = PacketNumber::encode(i, i.saturating_sub(1));
+            match self.recv_packet(epoch, enc, Bytes::from(body), Some(i)) {
+                Outcome::Accepted => {}
+                o => return Err(format!("legitimate packet {i} refused: {o:?}")),
+            }
+            self.send_packet(epoch, i);
+        }
+        Ok(())
+    }
+}
+
+fn epoch_of(s: &str) -> Epoch {
+    if s == "initial" { Epoch::Initial } else { Epoch::Data }
+}
+
+/// entry of the grandchild: `l1rec c04 --probe <json>`
+fn child_main(spec: &str) -> ! {
+    vcore::alloc::set_rlimits(RLIMIT_AS, RLIMIT_CPU_S);
+    let v: Value = serde_json::from_str(spec).expect("probe json");
+    let p = Probe::from_json(&v);
+    let rt = tokio::runtime::Builder::new_current_thread().enable_time().start_paused(true).build().expect("runtime");
+    let out = rt.block_on(async move {
+        let epoch = epoch_of(&p.epoch);
+        let mut conn = Conn::new();
+        let hist_res = vcore::panics::catch(|| conn.history(p.hist, epoch, p.kind != "set_limit"));
+        match hist_res {
+            Ok(Ok(())) => {}
+            Ok(Err(e)) => return json!({"harness": e}),
+            Err(pr) => return json!({"harness": format!("history panicked: {} at {}", pr.message, pr.location)}),
+        }
+        let retired_before = conn.sink.count_retire();
+        let sink_before = conn.sink.len();
+        println!("C04START {}", json!({"n": p.hist.n(), "b": p.b()}));
+        let _ = std::io::stdout().flush();
+        let body = Bytes::from(p.frames.clone());
+        vcore::alloc::reset_peak();
+        let a0 = vcore::alloc::snapshot();
+        let c0 = vcore::alloc::cpu_time_us();
+        let res = vcore::panics::catch(|| match p.kind.as_str() {
+            "set_limit" => match conn.local_cids.set_limit(p.value) {
+                Ok(()) => Outcome::Accepted,
+                Err(e) => {
+                    let (k, r) = kind_of(&e);
+                    Outcome::Error(k, r)
+                }
+            },
+            _ => conn.recv_packet(epoch, PacketNumber::U32(p.pn as u32), body, Some(p.pn)),
+        });
+        let c1 = vcore::alloc::cpu_time_us();
+        let a1 = vcore::alloc::snapshot();
+        let (token, detail) = match &res {
+            Ok(o) => (o.token(), o.detail()),
+            Err(pr) => ("panic".to_string(), format!("{} at {}", pr.message, vcore::panics::short_location(&pr.location))),
+        };
+        json!({
+            "outcome": token, "detail": detail,
+            "cpu_us": c1.saturating_sub(c0),
+            "peak": a1.peak.saturating_sub(a0.live),
+            "total": a1.total - a0.total,
+            "calls": a1.calls - a0.calls,
+            "frames_emitted": conn.sink.len().saturating_sub(sink_before),
+            "retired_before": retired_before,
+        })
+    });
+    println!("C04RESULT {out}");
+    let _ = std::io::stdout().flush();
+    // skip destructors: tearing down 10^7-entry tables is not part of the measurement
+    std::process::exit(0);
+}
+
+// ==========================================================================================
+//                                      PARENT SIDE
+// ==========================================================================================
+
+#[derive(Debug, Clone, Default)]
+struct ChildRun {
+    started: bool,
+    result: Option<Value>,
+    /// terminating signal, if any
+    signal: Option<i32>,
+    exit_code: Option<i32>,
+    watchdog: bool,
+    child_cpu_us: u64,
+    stderr_tail: String,
+}
+
+fn children_cpu_us() -> u64 {
+    unsafe {
+        let mut ru: libc::rusage = std::mem::zeroed();
+        libc::getrusage(libc::RUSAGE_CHILDREN, &mut ru);
+        (ru.ru_utime.tv_sec as u64 + ru.ru_stime.tv_sec as u64) * 1_000_000 + ru.ru_utime.tv_usec as u64 + ru.ru_stime.tv_usec as u64
+    }
+}
+
+fn run_child(p: &Probe) -> ChildRun {
+    use std::os::unix::process::ExitStatusExt;
+    let exe = std::env::current_exe().expect("current_exe");
+    let mut run = ChildRun::default();
+    let cpu0 = children_cpu_us();
+    let mut child = match Command::new(exe)
+        .args(["c04", "--probe", &p.to_json().to_string()])
+        .stdin(Stdio::null())
+        .stdout(Stdio::piped())
+        .stderr(Stdio::piped())
+        .spawn()
+    {
+        Ok(c) => c,
+        Err(e) => {
+            run.stderr_tail = format!("spawn failed: {e}");
+            return run;
+        }
+    };
+    // outputs are tiny (two lines), so reading after exit cannot dead-lock on a full pipe
+    // wall clock is used only to stop waiting; the verdict below never depends on it
+    let t0 = std::time::Instant::now();
+    let status = loop {
+        match child.try_wait() {
+            Ok(Some(st)) => break Some(st),
+            Ok(None) => {
+                if t0.elapsed().as_secs() > WATCHDOG_S {
+                    let _ = child.kill();
+                    run.watchdog = true;
+                    break child.wait().ok();
+                }
+                let el = t0.elapsed().as_millis();
+                std::thread::sleep(Duration::from_micros(if el < 20 { 200 } else if el < 500 { 2000 } else { 20_000 }));
+            }
+            Err(_) => break None,
+        }
+    };
+    run.child_cpu_us = children_cpu_us().saturating_sub(cpu0);
+    let mut so = String::new();
+    let mut se = String::new();
+    if let Some(mut o) = child.stdout.take() {
+        let _ = o.read_to_string(&mut so);
+    }
+    if let Some(mut e) = child.stderr.take() {
+        let _ = e.read_to_string(&mut se);
+    }
+    let tail: String = se.chars().rev().take(400).collect::<String>().chars().rev().collect();
+    run.stderr_tail = tail;
+    if let Some(st) = status {
+        run.signal = st.signal();
+        run.exit_code = st.code();
+    }
+    for line in so.lines() {
+        if line.starts_with("C04START ") {
+            run.started = true;
+        } else if let Some(r) = line.strip_prefix("C04RESULT ") {
+            run.result = serde_json::from_str(r).ok();
+        }
+    }
+    run
+}
+
+#[derive(Debug, Clone, Default)]
+struct Judged {
+    /// (signature, what)
+    violations: Vec<(String, String)>,
+    inconclusive: Option<String>,
+    cpu_us: u64,
+    peak: u64,
+    total: u64,
+    frames_emitted: u64,
+    outcome: String,
+    over_budget: bool,
+    killed: bool,
+}
+
+fn judge(p: &Probe, run: &ChildRun) -> Judged {
+    let mut j = Judged::default();
+    let (b, n) = (p.b(), p.hist.n());
+    let ab = alloc_budget(b, n);
+    let cb = cpu_budget_us(b, n);
+    let ctx = format!("{} value {} after history k={} cids={} streams={} ({} epoch)", p.family, p.value, p.hist.k, p.hist.cids, p.hist.streams, p.epoch);
+    let Some(res) = &run.result else {
+        // no result line: the child died
+        if !run.started {
+            j.inconclusive = Some(format!("child died before the probe started ({ctx}): signal {:?} exit {:?} {}", run.signal, run.exit_code, run.stderr_tail));
+            return j;
+        }
+        j.killed = true;
+        j.over_budget = true;
+        j.cpu_us = run.child_cpu_us;
+        let alloc_fail = run.stderr_tail.contains("memory allocation of") || run.stderr_tail.contains("capacity overflow");
+        if run.watchdog {
+            if run.child_cpu_us > cb {
+                j.violations.push((format!("C04.cpu:{}", p.family), format!("{ctx}: still running after {} s CPU (budget {} us) when the {WATCHDOG_S} s watchdog stopped it", run.child_cpu_us / 1_000_000, cb)));
+            } else {
+                j.inconclusive = Some(format!("watchdog stopped the child below its CPU budget ({ctx})"));
+            }
+        } else if run.signal == Some(libc::SIGXCPU) || (run.signal == Some(libc::SIGKILL) && run.child_cpu_us >= RLIMIT_CPU_S * 1_000_000) {
+            j.violations.push((format!("C04.cpu:{}", p.family), format!("{ctx}: handler still running when RLIMIT_CPU = {RLIMIT_CPU_S} s killed the process (budget {cb} us)")));
+        } else if run.signal == Some(libc::SIGABRT) && alloc_fail {
+            j.violations.push((format!("C04.mem:{}", p.family), format!("{ctx}: allocation failure under RLIMIT_AS = 2 GiB (budget {ab} bytes): {}", run.stderr_tail.trim().lines().last().unwrap_or(""))));
+        } else if run.signal == Some(libc::SIGSEGV) || run.signal == Some(libc::SIGABRT) || run.signal == Some(libc::SIGBUS) {
+            j.violations.push((format!("C04.crash:{}", p.family), format!("{ctx}: process died with signal {:?} while handling the probe: {}", run.signal, run.stderr_tail.trim())));
+        } else {
+            j.inconclusive = Some(format!("child ended without result ({ctx}): signal {:?} exit {:?} {}", run.signal, run.exit_code, run.stderr_tail));
+        }
+        return j;
+    };
+    if let Some(h) = res.get("harness") {
+        j.inconclusive = Some(format!("history not accepted ({ctx}): {h}"));
+        return j;
+    }
+    j.cpu_us = res["cpu_us"].as_u64().unwrap_or(0);
+    j.peak = res["peak"].as_u64().unwrap_or(0);
+    j.total = res["total"].as_u64().unwrap_or(0);
+    j.frames_emitted = res["frames_emitted"].as_u64().unwrap_or(0);
+    j.outcome = res["outcome"].as_str().unwrap_or("?").to_string();
+    let detail = res["detail"].as_str().unwrap_or("");
+    if detail.starts_with("HARNESS") {
+        j.inconclusive = Some(format!("{detail} ({ctx})"));
+        return j;
+    }
+    // an allocation-size panic is an allocation failure
+    let cap_overflow = j.outcome == "panic" && (detail.contains("capacity overflow") || detail.contains("memory allocation"));
+    if j.peak > ab || cap_overflow {
+        j.over_budget = true;
+        j.violations.push((format!("C04.mem:{}", p.family), format!("{ctx}: {} bytes live at peak ({} allocated in total, {} frames queued) for a {b}-byte input on {n} state entries; budget {ab}{}", j.peak, j.total, j.frames_emitted, if cap_overflow { format!(" [{detail}]") } else { String::new() })));
+    }
+    if j.cpu_us > cb {
+        j.over_budget = true;
+        j.violations.push((format!("C04.cpu:{}", p.family), format!("{ctx}: {} us of process CPU time for a {b}-byte input on {n} state entries; budget {cb} us", j.cpu_us)));
+    }
+    if cap_overflow {
+        return j;
+    }
+    let allowed_any = p.allowed.iter().any(|a| a == "any");
+    if j.outcome == "panic" {
+        let expects_error = p.allowed.iter().any(|a| a.starts_with("error:")) && !p.allowed.iter().any(|a| a == "accepted");
+        let sig = if expects_error { format!("C04.error:{}:panic", p.clause) } else { format!("C04.panic:{}", p.clause) };
+        j.violations.push((sig, format!("{ctx}: handler panicked ({detail}); allowed outcomes {:?}", p.allowed)));
+    } else if !allowed_any && !p.allowed.contains(&j.outcome) {
+        // signature = clause + what was observed instead (accepted / dropped / the wrong ErrorKind)
+        let observed = j.outcome.strip_prefix("error:").unwrap_or(&j.outcome);
+        j.violations.push((format!("C04.error:{}:{observed}", p.clause), format!("{ctx}: outcome `{}` ({detail}); the RFC allows only {:?}", j.outcome, p.allowed)));
+    }
+    j
+}
+
+// ------------------------------------------------------------------------------------------
+// probe table
+// ------------------------------------------------------------------------------------------
+const VALS: [u64; 14] = [0, 1, 2, 63, 64, (1 << 14) - 1, 1 << 14, (1 << 14) + 1, (1 << 30) - 1, 1 << 30, (1 << 30) + 1, 1 << 31, 1 << 40, VMAX];
+const RAMP: [u64; 3] = [1_000, 100_000, 10_000_000];
+
+fn acc() -> Vec<String> {
+    vec!["accepted".into()]
+}
+fn err(kinds: &[&str]) -> Vec<String> {
+    kinds.iter().map(|k| format!("error:{k}")).collect()
+}
+fn acc_or(kinds: &[&str]) -> Vec<String> {
+    let mut v = acc();
+    v.extend(err(kinds));
+    v
+}
+fn any() -> Vec<String> {
+    vec!["any".into()]
+}
+
+/// relation-to-state values around `x`: below / at / just above / far above
+fn rel(x: u64) -> Vec<u64> {
+    let mut v = vec![x, x + 1, x + 2, 2 * x + 10, x + 1000];
+    if x > 0 {
+        v.push(x - 1);
+    }
+    if x > 1 {
+        v.push(x / 2);
+    }
+    v
+}
+
+fn sweep(extra: &[u64], max: u64) -> Vec<u64> {
+    let mut v: Vec<u64> = VALS.iter().copied().chain(extra.iter().copied()).filter(|x| *x <= max).collect();
+    if !v.contains(&max) {
+        v.push(max);
+    }
+    v.sort_unstable();
+    v.dedup();
+    v
+}
+
+/// One family: a function value -> probe (None when the value is not expressible) and the range
+/// of values; `ramp` = distances tried first at 10^3/10^5/10^7 (mapped through `at`).
+pub struct Family {
+    pub name: &'static str,
+    pub epochs: &'static [&'static str],
+    /// values to sweep given the history (relations to state included)
+    pub values: fn(Hist) -> Vec<u64>,
+    /// ramp value for distance d (None = family has no meaningful magnitude)
+    pub ramp: fn(Hist, u64) -> Option<u64>,
+    pub make: fn(Hist, &str, u64) -> Option<Probe>,
+    /// needs at least this history
+    pub min_k: u64,
+    pub min_streams: u64,
+}
+
+fn mk(family: &str, clause: &str, epoch: &str, h: Hist, frames: Vec<u8>, value: u64, allowed: Vec<String>) -> Option<Probe> {
+    Some(Probe { family: family.into(), clause: clause.into(), epoch: epoch.into(), kind: "packet".into(), hist: h, pn: h.k, frames, value, allowed })
+}
+
+fn ramp_plain(_h: Hist, d: u64) -> Option<u64> {
+    Some(d)
+}
+fn ramp_above_k(h: Hist, d: u64) -> Option<u64> {
+    Some(h.k + d)
+}
+fn ramp_none(_h: Hist, _d: u64) -> Option<u64> {
+    None
+}
+fn vals_plain(_h: Hist) -> Vec<u64> {
+    sweep(&[], VMAX)
+}
+fn vals_rel_k(h: Hist) -> Vec<u64> {
+    sweep(&rel(h.k), VMAX)
+}
+fn vals_sid(_h: Hist) -> Vec<u64> {
+    sweep(&rel(MAX_STREAMS), SID_MAX)
+}
+
+/// stream-id carrying frames: (name, builder) for index sweeps
+fn sid_frame(kind: &str, sid: u64) -> Vec<u8> {
+    match kind {
+        "stream" => wire::stream(sid, 0, 1, false),
+        "reset_stream" => wire::reset_stream(sid, 7, 0),
+        "stop_sending" => wire::stop_sending(sid, 7),
+        "max_stream_data" => wire::max_stream_data(sid, 1 << 20),
+        "stream_data_blocked" => wire::stream_data_blocked(sid, 0),
+        _ => unreachable!(),
+    }
+}
+
+macro_rules! sid_family {
+    ($fname:ident, $kind:expr, $name:expr, $role:expr, $dir:expr, $expect:expr) => {
+        fn $fname(h: Hist, e: &str, v: u64) -> Option<Probe> {
+            if v > SID_MAX {
+                return None;
+            }
+            let (clause, allowed): (String, Vec<String>) = $expect(h, v);
+            mk($name, &clause, e, h, sid_frame($kind, wire::sid($role, $dir, v)), v, allowed)
+        }
+    };
+}
+
+/// client-initiated stream index against our advertised limit
+fn expect_index(prefix: &'static str) -> impl Fn(Hist, u64) -> (String, Vec<String>) {
+    move |h, v| {
+        if v < h.streams {
+            // an already open stream with data / a known final size: the frame's other fields decide
+            (format!("{prefix}.index-open"), any())
+        } else if v < MAX_STREAMS {
+            (format!("{prefix}.index-below-limit"), acc())
+        } else if v == MAX_STREAMS {
+            // all stream-id carrying frames share RemoteStreamIds::try_accept_sid: one clause
+            let _ = prefix;
+            ("stream-id.index-eq-limit".to_string(), err(&["StreamLimit"]))
+        } else {
+            (format!("{prefix}.index-gt-limit"), err(&["StreamLimit"]))
+        }
+    }
+}
+/// frame type not allowed in that direction: STREAM_STATE_ERROR (beyond the limit STREAM_LIMIT_ERROR is as good)
+fn expect_wrong_dir(prefix: &'static str, limited: bool) -> impl Fn(Hist, u64) -> (String, Vec<String>) {
+    move |_h, v| {
+        if limited && v >= MAX_STREAMS {
+            (format!("{prefix}.wrong-direction"), err(&["StreamState", "StreamLimit"]))
+        } else {
+            (format!("{prefix}.wrong-direction"), err(&["StreamState"]))
+        }
+    }
+}
+fn expect_unopened(prefix: &'static str) -> impl Fn(Hist, u64) -> (String, Vec<String>) {
+    move |_h, _v| (format!("{prefix}.local-unopened"), err(&["StreamState"]))
+}
+
+sid_family!(f_stream_idx_bi, "stream", "stream.index", 0, 0, expect_index("stream"));
+sid_family!(f_stream_idx_uni, "stream", "stream.index-uni", 0, 1, expect_index("stream"));
+sid_family!(f_reset_idx_bi, "reset_stream", "reset_stream.index", 0, 0, expect_index("reset_stream"));
+sid_family!(f_reset_idx_uni, "reset_stream", "reset_stream.index-uni", 0, 1, expect_index("reset_stream"));
+sid_family!(f_stop_idx_bi, "stop_sending", "stop_sending.index", 0, 0, expect_index("stop_sending"));
+sid_family!(f_msd_idx_bi, "max_stream_data", "max_stream_data.index", 0, 0, expect_index("max_stream_data"));
+sid_family!(f_sdb_idx_bi, "stream_data_blocked", "stream_data_blocked.index", 0, 0, expect_index("stream_data_blocked"));
+sid_family!(f_sdb_idx_uni, "stream_data_blocked", "stream_data_blocked.index-uni", 0, 1, expect_index("stream_data_blocked"));
+// wrong direction
+sid_family!(f_stream_srv_uni, "stream", "stream.server-uni", 1, 1, expect_wrong_dir("stream", false));
+sid_family!(f_reset_srv_uni, "reset_stream", "reset_stream.server-uni", 1, 1, expect_wrong_dir("reset_stream", false));
+sid_family!(f_sdb_srv_uni, "stream_data_blocked", "stream_data_blocked.server-uni", 1, 1, expect_wrong_dir("stream_data_blocked", false));
+sid_family!(f_stop_cli_uni, "stop_sending", "stop_sending.client-uni", 0, 1, expect_wrong_dir("stop_sending", true));
+sid_family!(f_msd_cli_uni, "max_stream_data", "max_stream_data.client-uni", 0, 1, expect_wrong_dir("max_stream_data", true));
+// locally initiated bidirectional stream that was never opened (RFC 9000 19.8, 19.10, 19.5)
+sid_family!(f_stream_unopened, "stream", "stream.local-bidi", 1, 0, expect_unopened("stream"));
+sid_family!(f_msd_unopened, "max_stream_data", "max_stream_data.local-bidi", 1, 0, expect_unopened("max_stream_data"));
+sid_family!(f_stop_unopened, "stop_sending", "stop_sending.local-bidi", 1, 0, expect_unopened("stop_sending"));
+
+fn f_ack_largest(h: Hist, e: &str, v: u64) -> Option<Probe> {
+    let s = h.k; // next unsent packet number
+    let (clause, allowed) = if v < s {
+        ("ack.largest-sent", acc())
+    } else if v == s {
+        ("ack.largest-eq-next-unsent", err(&["ProtocolViolation"]))
+    } else {
+        ("ack.largest-gt-next-unsent", err(&["ProtocolViolation"]))
+    };
+    mk("ack.largest", clause, e, h, wire::ack(v, 0, 0, &[]), v, allowed)
+}
+
+fn f_ack_first_range(h: Hist, e: &str, v: u64) -> Option<Probe> {
+    let s = h.k;
+    let l = s.saturating_sub(1);
+    let (clause, allowed) = if v > l {
+        // negative packet number; with nothing sent the largest is itself unsent: either error
+        ("ack.first-range-gt-largest", if s == 0 { err(&["FrameEncoding", "ProtocolViolation"]) } else { err(&["FrameEncoding"]) })
+    } else if s == 0 {
+        ("ack.largest-eq-next-unsent", err(&["ProtocolViolation"]))
+    } else {
+        ("ack.first-range-valid", acc())
+    };
+    mk("ack.first_range", clause, e, h, wire::ack(l, 0, v, &[]), v, allowed)
+}
+
+/// ACK 0..=v, v unsent: must be refused, and refused before walking the range
+fn f_ack_range_iteration(h: Hist, e: &str, v: u64) -> Option<Probe> {
+    if v < h.k {
+        return None;
+    }
+    let clause = if v == h.k { "ack.largest-eq-next-unsent" } else { "ack.range-unsent" };
+    mk("ack.range-iteration", clause, e, h, wire::ack(v, 0, v, &[]), v, err(&["ProtocolViolation"]))
+}
+
+fn f_ack_gap(h: Hist, e: &str, v: u64) -> Option<Probe> {
+    let l = h.k - 1;
+    // next range: largest = l - 0 - gap - 2
+    let (clause, allowed) = if v + 2 > l { ("ack.gap-underflow", err(&["FrameEncoding"])) } else { ("ack.gap-valid", acc()) };
+    mk("ack.gap", clause, e, h, wire::ack(l, 0, 0, &[(v, 0)]), v, allowed)
+}
+
+fn f_ack_range_len(h: Hist, e: &str, v: u64) -> Option<Probe> {
+    let l = h.k - 1;
+    let (clause, allowed) = if l < 2 || v > l - 2 { ("ack.range-len-underflow", err(&["FrameEncoding"])) } else { ("ack.range-len-valid", acc()) };
+    mk("ack.range_len", clause, e, h, wire::ack(l, 0, 0, &[(0, v)]), v, allowed)
+}
+
+fn f_ack_delay(h: Hist, e: &str, v: u64) -> Option<Probe> {
+    mk("ack.delay", "ack.delay", e, h, wire::ack(h.k - 1, v, 0, &[]), v, acc())
+}
+
+fn f_ack_ecn(h: Hist, e: &str, v: u64) -> Option<Probe> {
+    mk("ack.ecn", "ack.ecn", e, h, wire::ack_ecn(h.k - 1, 0, 0, [v, v, v]), v, acc())
+}
+
+/// as many one-packet ranges as the history allows / fit into one packet
+fn f_ack_many_ranges(h: Hist, e: &str, v: u64) -> Option<Probe> {
+    let l = h.k - 1;
+    let r = v.min(l / 2).min(400);
+    if r == 0 {
+        return None;
+    }
+    let ranges: Vec<(u64, u64)> = (0..r).map(|_| (0, 0)).collect();
+    mk("ack.many-ranges", "ack.many-ranges", e, h, wire::ack(l, 0, 0, &ranges), r, acc())
+}
+fn vals_ranges(_h: Hist) -> Vec<u64> {
+    vec![1, 10, 400]
+}
+
+fn f_pn_jump(h: Hist, e: &str, v: u64) -> Option<Probe> {
+    if v >= 1 << 31 {
+        return None;
+    }
+    let mut p = mk("pn.jump", "pn.jump", e, h, vec![wire::PING], v, acc())?;
+    p.pn = h.k + v;
+    Some(p)
+}
+fn vals_pn(_h: Hist) -> Vec<u64> {
+    sweep(&[], (1 << 31) - 1)
+}
+
+fn f_pn_old(h: Hist, e: &str, v: u64) -> Option<Probe> {
+    if v >= h.k {
+        return None;
+    }
+    let mut p = mk("pn.old", "pn.duplicate", e, h, vec![wire::PING], v, vec!["dropped".into()])?;
+    p.pn = v;
+    Some(p)
+}
+fn vals_old(h: Hist) -> Vec<u64> {
+    let mut v = vec![0, h.k / 2, h.k.saturating_sub(1)];
+    v.dedup();
+    v
+}
+
+/// sequence far ahead, everything before it retired: small active set, but a gap of v
+fn f_ncid_seq_gap(h: Hist, e: &str, v: u64) -> Option<Probe> {
+    let seq = h.cids + 1 + v;
+    if seq > VMAX {
+        return None;
+    }
+    mk("new_connection_id.seq-gap", "new_connection_id.seq-gap", e, h, wire::new_cid(seq, seq), v, acc_or(&["ConnectionIdLimit", "ProtocolViolation"]))
+}
+fn vals_gap(_h: Hist) -> Vec<u64> {
+    sweep(&[], VMAX - 8)
+}
+
+/// retire_prior_to = 0: ids 0..=h.cids are active, does `seq` still fit under our limit?
+fn f_ncid_seq(h: Hist, e: &str, v: u64) -> Option<Probe> {
+    let next = h.cids + 1;
+    let (clause, allowed) = if v < next {
+        ("new_connection_id.retransmitted", acc())
+    } else if h.cids + 2 > LOCAL_CID_LIMIT && v == LOCAL_CID_LIMIT {
+        // sequence - retire_prior_to == limit: limit + 1 active ids
+        ("new_connection_id.exceeds-active-limit-by-one", err(&["ConnectionIdLimit"]))
+    } else if h.cids + 2 > LOCAL_CID_LIMIT {
+        ("new_connection_id.exceeds-active-limit", err(&["ConnectionIdLimit"]))
+    } else {
+        ("new_connection_id.seq", acc_or(&["ConnectionIdLimit"]))
+    };
+    mk("new_connection_id.seq", clause, e, h, wire::new_cid(v, 0), v, allowed)
+}
+fn vals_ncid_seq(h: Hist) -> Vec<u64> {
+    sweep(&rel(h.cids + 1), VMAX)
+}
+
+fn f_ncid_rpt(h: Hist, e: &str, v: u64) -> Option<Probe> {
+    let seq = h.cids + 1;
+    let (clause, allowed) = if v > seq {
+        ("new_connection_id.rpt-gt-seq", err(&["FrameEncoding"]))
+    } else {
+        ("new_connection_id.rpt", acc_or(&["ConnectionIdLimit"]))
+    };
+    mk("new_connection_id.retire_prior_to", clause, e, h, wire::new_cid(seq, v), v, allowed)
+}
+
+fn f_retire_seq(h: Hist, e: &str, v: u64) -> Option<Probe> {
+    // we issued 0..PEER_CID_LIMIT-1
+    let (clause, allowed) = if v >= PEER_CID_LIMIT {
+        ("retire_connection_id.unissued-seq", err(&["ProtocolViolation"]))
+    } else {
+        ("retire_connection_id.issued-seq", acc_or(&["ProtocolViolation"]))
+    };
+    mk("retire_connection_id.seq", clause, e, h, wire::retire_cid(v), v, allowed)
+}
+fn vals_retire(_h: Hist) -> Vec<u64> {
+    sweep(&rel(PEER_CID_LIMIT), VMAX)
+}
+
+fn f_set_limit(h: Hist, e: &str, v: u64) -> Option<Probe> {
+    let (clause, allowed) = if v < 2 { ("set_limit.lt-2", err(&["TransportParameter"])) } else { ("set_limit", acc()) };
+    let mut p = mk("set_limit.active-connection-id-limit", clause, e, h, vec![], v, allowed)?;
+    p.kind = "set_limit".into();
+    Some(p)
+}
+
+fn f_stream_offset(h: Hist, e: &str, v: u64) -> Option<Probe> {
+    let sid = wire::sid(0, 0, 0);
+    let (clause, allowed) = if v == VMAX {
+        ("stream.offset-beyond-2^62", err(&["FrameEncoding", "FlowControl"]))
+    } else if v + 1 > STREAM_WINDOW {
+        ("stream.offset-beyond-stream-limit", err(&["FlowControl"]))
+    } else {
+        ("stream.offset-within-limit", acc())
+    };
+    mk("stream.offset", clause, e, h, wire::stream(sid, v, 1, false), v, allowed)
+}
+fn vals_stream_off(_h: Hist) -> Vec<u64> {
+    sweep(&rel(STREAM_WINDOW - 1), VMAX)
+}
+
+/// v new streams, each filled to its own limit, then a RESET_STREAM of a further stream whose final
+/// size uses exactly the remaining connection credit (even v) or one byte more (odd v).  The
+/// receive controller extends max_data by half the initial window whenever the received total comes
+/// within that distance of the limit (qbase/src/flow.rs), which the expectation follows.
+fn f_conn_flow(h: Hist, e: &str, v: u64) -> Option<Probe> {
+    if v > 64 {
+        return None;
+    }
+    let mut body = vec![];
+    let mut rcvd = 50 * h.streams + if h.streams >= 2 { 50 } else { 0 };
+    let (mut max, step) = (CONN_WINDOW, CONN_WINDOW / 2);
+    for i in 0..v {
+        body.extend(wire::stream(wire::sid(0, 0, 20 + i), STREAM_WINDOW - 1, 1, false));
+        rcvd += STREAM_WINDOW;
+        if rcvd > max {
+            return None;
+        }
+        if rcvd + step >= max {
+            max += step;
+        }
+    }
+    let over = v % 2 == 1;
+    let fin = max - rcvd + over as u64;
+    body.extend(wire::reset_stream(wire::sid(0, 0, 90), 7, fin));
+    let (clause, allowed) = if over {
+        ("stream.beyond-connection-limit", err(&["FlowControl"]))
+    } else {
+        ("stream.at-connection-limit", acc_or(&["FlowControl"]))
+    };
+    mk("stream.connection-flow", clause, e, h, body, v, allowed)
+}
+fn vals_conn_flow(_h: Hist) -> Vec<u64> {
+    vec![0, 1, 7, 8, 15, 16, 17, 30]
+}
+
+/// stream 1 is in Size Known state (final size 100, bytes 50..80 missing); stream 0 holds 0..50
+fn f_final_size_stream(h: Hist, e: &str, v: u64) -> Option<Probe> {
+    let (s0, s1) = (wire::sid(0, 0, 0), wire::sid(0, 0, 1));
+    let (frames, clause, allowed) = match v {
+        0 => (wire::stream(s1, 100, 1, false), "stream.beyond-final-size", err(&["FinalSize"])),
+        1 => (wire::stream(s1, 60, 10, true), "stream.fin-changes-final-size", err(&["FinalSize"])),
+        2 => (wire::stream(s1, 90, 20, true), "stream.fin-changes-final-size", err(&["FinalSize"])),
+        3 => (wire::stream(s0, 10, 10, true), "stream.fin-below-received", err(&["FinalSize"])),
+        4 => (wire::stream(s1, 60, 10, false), "stream.fills-gap", acc()),
+        5 => (wire::stream(s1, 90, 10, true), "stream.same-final-size", acc()),
+        _ => return None,
+    };
+    mk("stream.final-size", clause, e, h, frames, v, allowed)
+}
+fn vals_0_5(_h: Hist) -> Vec<u64> {
+    (0..6).collect()
+}
+
+/// RESET_STREAM final size on stream 0 (Recv state, 50 bytes received)
+fn f_reset_final_recv(h: Hist, e: &str, v: u64) -> Option<Probe> {
+    let used = 50 * h.streams + if h.streams >= 2 { 50 } else { 0 };
+    let (clause, allowed) = if v < 50 {
+        ("reset_stream.final-size-below-received", err(&["FinalSize"]))
+    } else if v <= STREAM_WINDOW {
+        ("reset_stream.final-size-valid", acc())
+    } else if used - 50 + v <= CONN_WINDOW {
+        // above the stream's limit but inside the connection's: RFC 9000 4.1/4.5 read together call for
+        // FLOW_CONTROL_ERROR, but no sentence says so for RESET_STREAM explicitly: not demanded
+        ("reset_stream.final-size-gt-stream-limit", acc_or(&["FlowControl"]))
+    } else {
+        ("reset_stream.final-size-gt-connection-limit", err(&["FlowControl"]))
+    };
+    mk("reset_stream.final_size", clause, e, h, wire::reset_stream(wire::sid(0, 0, 0), 7, v), v, allowed)
+}
+fn vals_reset_final(_h: Hist) -> Vec<u64> {
+    sweep(&[49, 50, 51, STREAM_WINDOW, STREAM_WINDOW + 1, CONN_WINDOW - 200, CONN_WINDOW + 1], VMAX)
+}
+
+/// RESET_STREAM on stream 1 whose final size (100) is known
+fn f_reset_final_known(h: Hist, e: &str, v: u64) -> Option<Probe> {
+    let (clause, allowed) = if v == 100 {
+        ("reset_stream.same-final-size", acc())
+    } else if v > STREAM_WINDOW {
+        ("reset_stream.final-size-changed", err(&["FinalSize", "FlowControl"]))
+    } else {
+        ("reset_stream.final-size-changed", err(&["FinalSize"]))
+    };
+    mk("reset_stream.final_size-known", clause, e, h, wire::reset_stream(wire::sid(0, 0, 1), 7, v), v, allowed)
+}
+fn vals_reset_known(_h: Hist) -> Vec<u64> {
+    sweep(&[99, 100, 101], VMAX)
+}
+
+fn f_max_data(h: Hist, e: &str, v: u64) -> Option<Probe> {
+    mk("max_data.value", "max_data.value", e, h, wire::max_data(v), v, acc())
+}
+fn f_max_stream_data(h: Hist, e: &str, v: u64) -> Option<Probe> {
+    mk("max_stream_data.value", "max_stream_data.value", e, h, wire::max_stream_data(wire::sid(0, 0, 0), v), v, acc())
+}
+/// 2^60 itself is legal (RFC 9000 19.11) but qbase refuses it; refusing a value no honest peer sends is not held against it
+fn max_streams_expect(v: u64) -> (&'static str, Vec<String>) {
+    if v > 1 << 60 {
+        ("max_streams.gt-2^60", err(&["FrameEncoding"]))
+    } else if v == 1 << 60 {
+        ("max_streams.eq-2^60", acc_or(&["FrameEncoding"]))
+    } else {
+        ("max_streams.value", acc())
+    }
+}
+fn f_max_streams_bi(h: Hist, e: &str, v: u64) -> Option<Probe> {
+    let (c, a) = max_streams_expect(v);
+    mk("max_streams.value", c, e, h, wire::max_streams(false, v), v, a)
+}
+fn f_max_streams_uni(h: Hist, e: &str, v: u64) -> Option<Probe> {
+    let (c, a) = max_streams_expect(v);
+    mk("max_streams.value-uni", c, e, h, wire::max_streams(true, v), v, a)
+}
+fn f_streams_blocked(h: Hist, e: &str, v: u64) -> Option<Probe> {
+    let (c, a) = if v > 1 << 60 { ("streams_blocked.gt-2^60", err(&["FrameEncoding", "StreamLimit"])) } else { ("streams_blocked.value", acc()) };
+    mk("streams_blocked.value", c, e, h, wire::streams_blocked(v % 2 == 1, v), v, a)
+}
+fn vals_2_60(_h: Hist) -> Vec<u64> {
+    sweep(&[(1 << 60) - 1, 1 << 60, (1 << 60) + 1], VMAX)
+}
+fn f_data_blocked(h: Hist, e: &str, v: u64) -> Option<Probe> {
+    mk("data_blocked.value", "data_blocked.value", e, h, wire::data_blocked(v), v, acc())
+}
+fn f_stream_data_blocked(h: Hist, e: &str, v: u64) -> Option<Probe> {
+    mk("stream_data_blocked.value", "stream_data_blocked.value", e, h, wire::stream_data_blocked(wire::sid(0, 0, 0), v), v, acc())
+}
+fn f_stop_code(h: Hist, e: &str, v: u64) -> Option<Probe> {
+    mk("stop_sending.code", "stop_sending.code", e, h, wire::stop_sending(wire::sid(0, 0, 0), v), v, acc())
+}
+fn f_reset_code(h: Hist, e: &str, v: u64) -> Option<Probe> {
+    mk("reset_stream.code", "reset_stream.code", e, h, wire::reset_stream(wire::sid(0, 0, 30), v, 0), v, acc())
+}
+
+fn f_crypto_offset(h: Hist, e: &str, v: u64) -> Option<Probe> {
+    let (clause, allowed) = if v == VMAX {
+        ("crypto.offset-beyond-2^62", err(&["FrameEncoding", "CryptoBufferExceeded"]))
+    } else if v > 1 << 61 {
+        // qbase's parser refuses offsets above 2^61 (checks offset+offset); closing on such a frame
+        // is within an endpoint's rights (CRYPTO_BUFFER_EXCEEDED), only the code differs: not demanded
+        ("crypto.offset-above-2^61", any())
+    } else {
+        ("crypto.offset", acc_or(&["CryptoBufferExceeded"]))
+    };
+    mk("crypto.offset", clause, e, h, wire::crypto(v, 1), v, allowed)
+}
+
+const DATA: &[&str] = &["data"];
+const BOTH: &[&str] = &["data", "initial"];
+
+pub fn families() -> Vec<Family> {
+    macro_rules! fam {
+        ($name:expr, $ep:expr, $vals:expr, $ramp:expr, $make:expr, $mink:expr, $mins:expr) => {
+            Family { name: $name, epochs: $ep, values: $vals, ramp: $ramp, make: $make, min_k: $mink, min_streams: $mins }
+        };
+    }
+    vec![
+        fam!("ack.largest", BOTH, vals_rel_k, ramp_above_k, f_ack_largest, 0, 0),
+        fam!("ack.first_range", BOTH, vals_rel_k, ramp_above_k, f_ack_first_range, 0, 0),
+        fam!("ack.range-iteration", BOTH, vals_rel_k, ramp_above_k, f_ack_range_iteration, 0, 0),
+        fam!("ack.gap", BOTH, vals_rel_k, ramp_plain, f_ack_gap, 1, 0),
+        fam!("ack.range_len", BOTH, vals_rel_k, ramp_plain, f_ack_range_len, 1, 0),
+        fam!("ack.delay", BOTH, vals_plain, ramp_plain, f_ack_delay, 1, 0),
+        fam!("ack.ecn", BOTH, vals_plain, ramp_plain, f_ack_ecn, 1, 0),
+        fam!("ack.many-ranges", DATA, vals_ranges, ramp_none, f_ack_many_ranges, 10, 0),
+        fam!("pn.jump", BOTH, vals_pn, ramp_plain, f_pn_jump, 0, 0),
+        fam!("pn.old", BOTH, vals_old, ramp_none, f_pn_old, 1, 0),
+        fam!("new_connection_id.seq-gap", DATA, vals_gap, ramp_plain, f_ncid_seq_gap, 0, 0),
+        fam!("new_connection_id.seq", DATA, vals_ncid_seq, ramp_plain, f_ncid_seq, 0, 0),
+        fam!("new_connection_id.retire_prior_to", DATA, vals_ncid_seq, ramp_plain, f_ncid_rpt, 0, 0),
+        fam!("retire_connection_id.seq", DATA, vals_retire, ramp_plain, f_retire_seq, 0, 0),
+        fam!("set_limit.active-connection-id-limit", DATA, vals_plain, ramp_plain, f_set_limit, 0, 0),
+        fam!("stream.index", DATA, vals_sid, ramp_plain, f_stream_idx_bi, 0, 0),
+        fam!("stream.index-uni", DATA, vals_sid, ramp_plain, f_stream_idx_uni, 0, 0),
+        fam!("reset_stream.index", DATA, vals_sid, ramp_plain, f_reset_idx_bi, 0, 0),
+        fam!("reset_stream.index-uni", DATA, vals_sid, ramp_plain, f_reset_idx_uni, 0, 0),
+        fam!("stop_sending.index", DATA, vals_sid, ramp_plain, f_stop_idx_bi, 0, 0),
+        fam!("max_stream_data.index", DATA, vals_sid, ramp_plain, f_msd_idx_bi, 0, 0),
+        fam!("stream_data_blocked.index", DATA, vals_sid, ramp_plain, f_sdb_idx_bi, 0, 0),
+        fam!("stream_data_blocked.index-uni", DATA, vals_sid, ramp_plain, f_sdb_idx_uni, 0, 0),
+        fam!("stream.server-uni", DATA, vals_sid, ramp_plain, f_stream_srv_uni, 0, 0),
+        fam!("reset_stream.server-uni", DATA, vals_sid, ramp_plain, f_reset_srv_uni, 0, 0),
+        fam!("stream_data_blocked.server-uni", DATA, vals_sid, ramp_plain, f_sdb_srv_uni, 0, 0),
+        fam!("stop_sending.client-uni", DATA, vals_sid, ramp_plain, f_stop_cli_uni, 0, 0),
+        fam!("max_stream_data.client-uni", DATA, vals_sid, ramp_plain, f_msd_cli_uni, 0, 0),
+        fam!("stream.local-bidi", DATA, vals_sid, ramp_plain, f_stream_unopened, 0, 0),
+        fam!("max_stream_data.local-bidi", DATA, vals_sid, ramp_plain, f_msd_unopened, 0, 0),
+        fam!("stop_sending.local-bidi", DATA, vals_sid, ramp_plain, f_stop_unopened, 0, 0),
+        fam!("stream.offset", DATA, vals_stream_off, ramp_plain, f_stream_offset, 0, 0),
+        fam!("stream.connection-flow", DATA, vals_conn_flow, ramp_none, f_conn_flow, 0, 0),
+        fam!("stream.final-size", DATA, vals_0_5, ramp_none, f_final_size_stream, 2, 2),
+        fam!("reset_stream.final_size", DATA, vals_reset_final, ramp_plain, f_reset_final_recv, 1, 1),
+        fam!("reset_stream.final_size-known", DATA, vals_reset_known, ramp_plain, f_reset_final_known, 2, 2),
+        fam!("max_data.value", DATA, vals_plain, ramp_plain, f_max_data, 0, 0),
+        fam!("max_stream_data.value", DATA, vals_plain, ramp_plain, f_max_stream_data, 1, 1),
+        fam!("max_streams.value", DATA, vals_2_60, ramp_plain, f_max_streams_bi, 0, 0),
+        fam!("max_streams.value-uni", DATA, vals_2_60, ramp_plain, f_max_streams_uni, 0, 0),
+        fam!("streams_blocked.value", DATA, vals_2_60, ramp_plain, f_streams_blocked, 0, 0),
+        fam!("data_blocked.value", DATA, vals_plain, ramp_plain, f_data_blocked, 0, 0),
+        fam!("stream_data_blocked.value", DATA, vals_plain, ramp_plain, f_stream_data_blocked, 1, 1),
+        fam!("stop_sending.code", DATA, vals_plain, ramp_plain, f_stop_code, 1, 1),
+        fam!("reset_stream.code", DATA, vals_plain, ramp_plain, f_reset_code, 0, 0),
+        fam!("crypto.offset", BOTH, vals_plain, ramp_plain, f_crypto_offset, 0, 0),
+    ]
+}
+
+pub const HISTS: [Hist; 4] = [
+    Hist { k: 0, cids: 0, streams: 0 },
+    Hist { k: 1, cids: 1, streams: 1 },
+    Hist { k: 10, cids: 2, streams: 3 },
+    Hist { k: 1000, cids: 3, streams: 5 },
+];
+
+// ------------------------------------------------------------------------------------------
+// running groups of probes
+// ------------------------------------------------------------------------------------------
+struct Ctx<'a> {
+    rep: &'a mut Report,
+    samples_left: usize,
+    /// CPU signatures already confirmed by three runs in this process (no need to pay for it again)
+    confirmed_cpu: HashSet<String>,
+}
+
+impl Ctx<'_> {
+    /// run one probe in a grandchild, record evidence and violations; returns the judgement
+    fn run(&mut self, p: &Probe, phase: &str) -> Judged {
+        let run = run_child(p);
+        let mut j = judge(p, &run);
+        // Process CPU time is inflated when the host steals the vCPU or page faults are slow.  The
+        // workload is deterministic, so the minimum over repetitions is the honest estimate: a CPU
+        // overrun only counts when three independent runs all exceed the budget.
+        let mut reruns = 0;
+        let first_cpu = j.cpu_us;
+        while reruns < 2
+            && !j.killed
+            && j.inconclusive.is_none()
+            && j.violations.iter().any(|(s, _)| s.starts_with("C04.cpu:") && !self.confirmed_cpu.contains(s))
+        {
+            reruns += 1;
+            self.rep.count("cpu_confirmation_reruns");
+            let j2 = judge(p, &run_child(p));
+            if j2.inconclusive.is_none() && !j2.killed && j2.cpu_us < j.cpu_us {
+                j = j2;
+            }
+        }
+        if reruns == 2 {
+            for (s, _) in &j.violations {
+                if s.starts_with("C04.cpu:") {
+                    self.confirmed_cpu.insert(s.clone());
+                }
+            }
+        }
+        if reruns > 0 && !j.violations.iter().any(|(s, _)| s.starts_with("C04.cpu:")) {
+            self.rep.count("cpu_overruns_not_confirmed");
+            self.rep.notes.push(format!("cpu overrun not confirmed: {} value {} k={}: first run {} us, minimum {} us", p.family, p.value, p.hist.k, first_cpu, j.cpu_us));
+        }
+        self.rep.evaluations += 1;
+        self.rep.count("probes");
+        self.rep.count(&format!("probes.{phase}"));
+        self.rep.count(&format!("family.{}", p.family));
+        if let Some(why) = &j.inconclusive {
+            self.rep.count("probes_inconclusive");
+            self.rep.inconclusive(why.clone());
+            return j;
+        }
+        if j.killed {
+            self.rep.count("children_killed_by_limit");
+        }
+        self.rep.count(&format!("outcome.{}", if j.killed { "killed" } else { j.outcome.split(':').next().unwrap_or("?") }));
+        if let Some(k) = j.outcome.strip_prefix("error:") {
+            self.rep.count(&format!("error_kind.{k}"));
+        }
+        self.rep.max("max_cpu_us_within_budget", if j.over_budget { 0 } else { j.cpu_us });
+        self.rep.max("max_peak_bytes_within_budget", if j.over_budget { 0 } else { j.peak });
+        self.rep.max("max_cpu_us_observed", j.cpu_us);
+        self.rep.max("max_peak_bytes_observed", j.peak);
+        self.rep.max("max_frames_emitted_by_one_probe", j.frames_emitted);
+        self.rep.set("clauses", vcore::fnv_str(&p.clause));
+        self.rep.set("outcomes", vcore::fnv_str(&format!("{}|{}", p.clause, j.outcome)));
+        // distinct non-trivial: hostile (a refusal is demanded) or far-from-state value
+        let hostile = !p.allowed.iter().any(|a| a == "accepted" || a == "any") || p.value > 4 * (p.hist.n() + 64);
+        if hostile {
+            self.rep.distinct(vcore::fnv_str(&format!("{}|{}|{:?}|{}|{}", p.family, p.epoch, p.hist, p.value, vcore::hex(&p.frames[..p.frames.len().min(24)]))));
+        }
+        if self.samples_left > 0 && hostile && p.hist.k > 0 {
+            self.samples_left -= 1;
+            self.rep.sample(json!({"family": p.family, "clause": p.clause, "hist": p.hist.to_json(), "value": p.value, "frames": vcore::hex(&p.frames[..p.frames.len().min(32)]),
+                                   "allowed": p.allowed, "outcome": j.outcome, "cpu_us": j.cpu_us, "peak_bytes": j.peak}));
+        }
+        for (sig, what) in &j.violations {
+            self.rep.violation(sig.clone(), what.clone(), p.to_json());
+        }
+        j
+    }
+
+    /// ramp (10^3, 10^5, 10^7) then sweep; a ramp step over budget stops larger magnitudes
+    fn group(&mut self, f: &Family, h: Hist, epoch: &str, extra_values: &[u64]) {
+        if h.k < f.min_k || h.streams < f.min_streams {
+            return;
+        }
+        self.rep.count("groups");
+        let mut stop_at: Option<u64> = None; // magnitude at which the cost already exceeded the budget
+        let mut pts: Vec<(u64, u64, u64)> = vec![];
+        for d in RAMP {
+            let Some(v) = (f.ramp)(h, d) else { break };
+            let Some(p) = (f.make)(h, epoch, v) else { continue };
+            let j = self.run(&p, "ramp");
+            if j.inconclusive.is_some() {
+                continue;
+            }
+            pts.push((d, j.cpu_us, j.peak));
+            if j.over_budget {
+                stop_at = Some(v);
+                break;
+            }
+        }
+        if pts.len() >= 2 {
+            let (d0, c0, m0) = pts[0];
+            let (d1, c1, m1) = pts[pts.len() - 1];
+            let dd = (d1 - d0).max(1);
+            // slope of the growth curve: picoseconds and milli-bytes per unit of the field value
+            self.rep.max(&format!("max_slope_cpu_ps_per_unit.{}", f.name), c1.saturating_sub(c0) * 1_000_000 / dd);
+            self.rep.max(&format!("max_slope_mem_millibytes_per_unit.{}", f.name), m1.saturating_sub(m0).saturating_mul(1000) / dd);
+            self.rep.count("ramps_fitted");
+        }
+        if stop_at.is_some() {
+            self.rep.count("ramps_over_budget");
+        }
+        let mut vals = (f.values)(h);
+        vals.extend_from_slice(extra_values);
+        vals.sort_unstable();
+        vals.dedup();
+        for v in vals {
+            let Some(p) = (f.make)(h, epoch, v) else { continue };
+            if let Some(s) = stop_at
+                && driving_magnitude(&p) >= s
+            {
+                // the growth curve already proved the cost unbounded; a larger value would only be killed
+                self.rep.count("sweep_values_skipped_after_ramp_violation");
+                continue;
+            }
+            let j = self.run(&p, "sweep");
+            if j.over_budget && !j.killed && stop_at.is_none() {
+                stop_at = Some(driving_magnitude(&p));
+            } else if j.killed {
+                stop_at = Some(stop_at.map_or(driving_magnitude(&p), |s| s.min(driving_magnitude(&p))));
+            }
+        }
+    }
+}
+
+fn driving_magnitude(p: &Probe) -> u64 {
+    if p.family == "pn.jump" { p.hist.k + p.value } else { p.value }
+}
+
+fn run_replay(rep: &mut Report, path: &str) {
+    let v: Value = serde_json::from_str(&std::fs::read_to_string(path).expect("replay file")).expect("replay json");
+    let v = if v.get("replay").is_some() { v["replay"].clone() } else { v };
+    let p = Probe::from_json(&v);
+    let mut ctx = Ctx { rep, samples_left: 1, confirmed_cpu: HashSet::new() };
+    ctx.run(&p, "replay");
+}
+
+pub fn run(args: &Args, rep: &mut Report) {
+    if let Some(spec) = args.get("probe") {
+        child_main(spec);
+    }
+    rep.rule = "probe = (handler+field family, epoch, pre-history k/cids/streams, field value) run in its own rlimited process; \
+                distinct = distinct (family, epoch, history, value, frame bytes); non-trivial = the RFC demands a refusal for it, \
+                or the value lies more than 4x beyond everything the history established"
+        .into();
+    rep.sample_cap(8);
+    if let Some(path) = args.get("replay") {
+        run_replay(rep, path);
+        return;
+    }
+    let thorough = args.get("tier") == Some("thorough");
+    let shard = args.u64("shard", 0);
+    let shards = args.u64("shards", 1).max(1);
+    let fams = families();
+    let mut ctx = Ctx { rep, samples_left: 4, confirmed_cpu: HashSet::new() };
+    // systematic table: family x epoch x history
+    // thorough: every history; quick: one rotating non-empty history per (family, epoch), plus the
+    // empty history where "nothing sent / nothing issued yet" is a relation of its own
+    let mut idx = 0u64;
+    let mut g = 0usize;
+    for f in &fams {
+        for e in f.epochs {
+            g += 1;
+            let hists: Vec<Hist> = if thorough {
+                HISTS.to_vec()
+            } else {
+                let mut v = vec![];
+                let pick = HISTS[1 + g % 3];
+                v.push(if pick.k < f.min_k || pick.streams < f.min_streams { HISTS[3] } else { pick });
+                if matches!(f.name, "ack.largest" | "ack.first_range" | "ack.range-iteration" | "pn.jump" | "new_connection_id.seq-gap" | "stream.index") {
+                    v.push(HISTS[0]);
+                }
+                if f.name == "new_connection_id.seq" && v[0] != HISTS[3] {
+                    v.push(HISTS[3]); // all of our active_connection_id_limit used up
+                }
+                v
+            };
+            for h in hists {
+                idx += 1;
+                if idx % shards != shard {
+                    continue;
+                }
+                ctx.group(f, h, e, &[]);
+            }
+        }
+    }
+    // random part: random histories and log-uniform field values
+    let n = args.budget(if thorough { 60 } else { 4 });
+    let mut rng = Rng::new(args.seed() ^ 0xc04).fork(shard);
+    for _ in 0..n {
+        let f = &fams[rng.below(fams.len() as u64) as usize];
+        let e = f.epochs[rng.below(f.epochs.len() as u64) as usize];
+        let k = match rng.below(4) {
+            0 => rng.range(2, 20),
+            1 => rng.range(20, 300),
+            _ => rng.range(300, 3000),
+        };
+        let h = Hist { k, cids: rng.below(LOCAL_CID_LIMIT).min(k), streams: rng.range(2, 12).min(k) };
+        let mut extra = vec![];
+        for _ in 0..6 {
+            let bits = rng.range(1, 62);
+            let v = (1u64 << bits).wrapping_add(rng.below(1 << bits.min(20))).wrapping_sub(rng.below(3));
+            extra.push(v.min(VMAX));
+        }
+        ctx.rep.count("random_groups");
+        ctx.group(f, h, e, &extra);
+    }
 }
